@@ -369,6 +369,29 @@ func c10MapAndHandler(id string, depth, subscribers, hcap, values int, seed int6
 				}
 			}
 		}
+		// subscription churn on a derived publisher: it must keep publishing fn(v) for every v of its origin, whatever
+		// happened to its own subscriptions before (all removed, a one-shot removing itself, re-subscription)
+		{
+			origin := fpgo.PublisherNewGenerics[int]()
+			der := origin.Map(func(v int) int { return v + 100 })
+			var a, b, oneShot []int
+			sa := der.Subscribe(fpgo.Subscription[int]{OnNext: func(v int) { a = append(a, v) }})
+			origin.Publish(1)
+			der.Unsubscribe(sa) // the derived publisher has no subscription left
+			origin.Publish(2)
+			der.Subscribe(fpgo.Subscription[int]{OnNext: func(v int) { b = append(b, v) }})
+			origin.Publish(3)
+			var so *fpgo.Subscription[int]
+			der2 := origin.Map(func(v int) int { return v + 200 })
+			so = der2.Subscribe(fpgo.Subscription[int]{OnNext: func(v int) { oneShot = append(oneShot, v); der2.Unsubscribe(so) }})
+			origin.Publish(4)
+			var late []int
+			der2.Subscribe(fpgo.Subscription[int]{OnNext: func(v int) { late = append(late, v) }})
+			origin.Publish(5)
+			if !eqSeq(a, []int{101}) || !eqSeq(b, []int{103, 104, 105}) || !eqSeq(oneShot, []int{204}) || !eqSeq(late, []int{205}) {
+				c.Violationf("map:resubscribe", rep, "a derived publisher stopped publishing after its subscriptions changed: first=%v (want [101]) resubscribed=%v (want [103 104 105]) one-shot=%v (want [204]) late=%v (want [205])", a, b, oneShot, late)
+			}
+		}
 		// SubscribeOn(h)
 		var h *fpgo.HandlerDef
 		if hcap == 0 {
